@@ -1,6 +1,6 @@
 # Contracts for pandora/disparity/disparity.py (property C03).  Oracle: property statement.
 
-@contract("pandora.disparity.disparity.WinnerTakesAll.argmin_split", props=["C03"])
+@contract("pandora.disparity.disparity.WinnerTakesAll.argmin_split", props=["C03", "C13"])
 def _(cost_volume):
     types(cost_volume={"vars": {"cost_volume": "f32[:,:,:]"}, "coords": {"disp": "f64[:]"}},
           result="f32[:,:]")
@@ -29,7 +29,7 @@ def _(cost_volume):
                   for y in range(y_begin, y_begin + cv_y.shape[0]) for x in range(x_begin)))
 
 
-@contract("pandora.disparity.disparity.WinnerTakesAll.argmax_split", props=["C03"])
+@contract("pandora.disparity.disparity.WinnerTakesAll.argmax_split", props=["C03", "C13"])
 def _(cost_volume):
     types(cost_volume={"vars": {"cost_volume": "f32[:,:,:]"}, "coords": {"disp": "f64[:]"}},
           result="f32[:,:]")
